@@ -89,6 +89,20 @@ func loadWorld(patterns []string) (*World, error) {
 			return nil, err
 		}
 	}
+	// every contract must bind to a function of its package
+	for _, key := range w.CS.Order {
+		c := w.CS.Funcs[key]
+		if strings.HasPrefix(c.Selector, "FunctionMap[") {
+			continue
+		}
+		sp := w.SSA[c.Pkg.Path()]
+		if sp == nil {
+			continue
+		}
+		if _, err := w.resolve(sp, c.Selector); err != nil {
+			return nil, fmt.Errorf("%s: contract does not bind: %v", c.File, err)
+		}
+	}
 	return w, nil
 }
 
